@@ -42,6 +42,11 @@ func init() {
 			"that repeats the distant value while the nearer one differs and the leaf that says again what it inherits. Each world is reloaded both ways and " +
 			"a probe table per level (variable / slot values of a new instance, accepted messages, readers and init keywords, documentation, method results) " +
 			"must be the same in the reloaded world - the text fixed point cannot see an omission that is made the same way in both snapshots. " +
+			"Option-value worlds (lf|ov:... and snap|ov:...): one definition with one option given each value of a value alphabet that contains the values " +
+			"a writer may take for 'not given' (nil, '(), \"\", 0, t) next to the twin without the option; the probe table is evaluated on a fresh instance / a fresh " +
+			"call made AFTER the reload and reads every slot, variable and default, bound-ness included. A form slip itself rejects (an option value it does not take) " +
+			"is an outcome, not a failure. Extended session menu: a probe marked lenient accepts a second stated answer after the reload (a closure's lost environment: " +
+			"unbound-variable; a value without a load form: the variable is unbound) because the statement does not demand more. " +
 			"S9: a snapshot that (load) rejects is loaded again without the forms of slip's own swank package, then form by form; a snapshot with a " +
 			"derived flavor before its base is repaired before loading; (defpackage name) load forms are retried with the names quoted; every " +
 			"verdict obtained that way says so (mode=..., degraded=...)",
@@ -52,6 +57,9 @@ func init() {
 			"a method without documentation may come back with the documentation of its generic function (pinned by the repository test TestDefmethodGenericLoadForm): the documentation compared for a method is its own or else the generic function's",
 			"a flavor's load form is not asked to carry its methods; the methods' own defining lists (Flavor.DefMethodList, what pretty-print flavor:method shows) are reloaded with it",
 			"go map iteration order is not controlled: snapshot sessions are repeated and order dependent verdicts are labelled flaky",
+		"slip documents nothing about closures in a snapshot and a lambda's load form has no environment: a function defined inside a let is required to be saved (still defined, same lambda list); calling it after the reload may signal unbound-variable for the lost binding",
+		"values without a load form (streams, channels, mutexes): the snapshot FuncDoc says they are excluded; the variable may be unbound after the reload, everything else of the session must be restored and the load must not abort",
+		"two variables holding the same list: equality of the restored values is compared, eq-ness is outside the statement",
 		},
 		Enumerate:     enumerate,
 		Exec:          execCase,
@@ -71,6 +79,13 @@ var required = []string{
 	"lf-inherit-leaf-restates-nearer", "lf-inherit-probes-compared",
 	"snap-inherit-session", "snap-inherit-session:fl", "snap-inherit-session:cl", "snap-inherit-leaf-repeats-distant", "snap-inherit-leaf-restates-nearer",
 	"snap-inherit-probes-compared",
+	"lf-optval-world", "lf-optval-world:class", "lf-optval-world:condition", "lf-optval-world:flavor", "lf-optval-world:struct", "lf-optval-world:defun",
+	"lf-optval-world:defmacro", "lf-optval-world:lambda", "lf-optval-world:generic", "lf-optval-world:package", "lf-optval-critical-value",
+	"lf-optval-absent-twin", "lf-optval-probes-compared",
+	"snap-optval-session", "snap-optval-session:class", "snap-optval-session:condition", "snap-optval-session:flavor", "snap-optval-session:defun",
+	"snap-optval-session:defmacro", "snap-optval-session:generic", "snap-optval-session:package", "snap-optval-session:defvar",
+	"snap-optval-session:defparameter", "snap-optval-session:defconstant", "snap-optval-critical-value", "snap-optval-absent-twin",
+	"snap-optval-probes-compared", "snap-ext-session", "snap-ext-probes-compared", "snap-ext-value-without-load-form",
 	"snap-session", "snap-stage1-ok", "snap-second-snapshot", "snap-probes-compared", "snap-forms-loaded", "snap-definitions-looked-for",
 }
 
@@ -91,6 +106,8 @@ func bound(tier string) string {
 	enumerateSnap(tier, func(string) { cnt++ })
 	worlds, sessions := inhCount(tier)
 	n += worlds
+	ovWorlds, ovLF, ovSessions := ovCount(tier)
+	n += ovLF
 	var fams []string
 	for _, f := range inhFamilies {
 		vals := len(f.vals)
@@ -115,8 +132,20 @@ func bound(tier string) string {
 		"flavor forest), 12 name-order chains, %d option sessions (flavor / class / generic function / condition / package options, each alone and all together), "+
 		"%d inheritance worlds (the same worlds as in A1 except the structures, each a session of its own), each in 2-4 fresh processes, 24 snapshots (inheritance worlds: 4) "+
 		"of the unchanged session compared with each other, (load) of the whole "+
-		"file, (load) without the forms of slip's own swank package, form by form load when both abort",
-		n, maxMargin-minMargin+1, minMargin, maxMargin, worlds, strings.Join(fams, ", "), cnt, k, len(menu), redefMaxSize(tier), len(redefItems), len(optionItems)+1, sessions)
+		"file, (load) without the forms of slip's own swank package, form by form load when both abort; "+
+		"option-value worlds: %d (one definition, one option - defclass / define-condition slot :initform, :initarg, :type, :documentation, :allocation, class "+
+		":documentation and :default-initargs; defflavor variable default, :default-init-plist, :documentation, a method's &optional default; defstruct slot default; "+
+		"defun / defmacro / lambda / method &optional, &key and &aux defaults, documentation string, body value; defgeneric :documentation; defvar / defparameter / "+
+		"defconstant / setq value and documentation; defpackage :documentation and empty options - given every value of {nil, t, 0, \"\", '(), a keyword, a quoted list, a "+
+		"quoted symbol, a number, a string} (documentation: \"\" and a text; some families have their own value list), next to the twin without the option), %d of them as A1 cases, %d as "+
+		"sessions of their own, probes on a FRESH instance / call made after the reload; the extended session menu: %d items (macros and their users in both name "+
+		"orders, closures, lambda-list keywords, wrapping / paragraph / empty documentation, structures, conditions, user packages with definitions and export / use "+
+		"relations, variables holding scalars, shared lists, hash tables, vectors, arrays, linked flavor / CLOS instances, bags, times, function objects, special "+
+		"objects nested in lists, %d kinds of values without a load form) each alone, all together, all but the values without a load form together (the items whose snapshot faults or ends the process on the tree as it is - a call of a lambda expression in a body, a method without "+
+		"body, instances referring to each other in a cycle - are sessions of their own only); thorough: + every pair of "+
+		"extended items and every extended item with every basic item",
+		n, maxMargin-minMargin+1, minMargin, maxMargin, worlds, strings.Join(fams, ", "), cnt, k, len(menu), redefMaxSize(tier), len(redefItems), len(optionItems)+1, sessions,
+		ovWorlds, ovLF, ovSessions, len(extItems), len(unencodable))
 }
 
 func execCase(spec string) (res engine.Result) {
